@@ -18,7 +18,7 @@ META = {
     "kept); an added always-true constraint (on a continuous variable, on the period) or always-true filter (on discrete "
     "variables - which turns them into filter-restricted variables and changes the layout); the same discrete restriction as a "
     "filter and as a constraint (including a state without any admissible choice: excluded from the space vs value -inf).",
-    "bounds": "templates TB, TC, TD, TE, TJ, TM, TN, TH, TA, TK with T=2 (TH/TA: 3); quick: 2 permutations per template; thorough: 8",
+    "bounds": "templates TB, TC, TD, TE, TG, TJ, TM, TN, TF, TP, TK (two stochastic states: order of next_* functions vs states), TH, TA with T=2 (TH/TA: 3); quick: 2 permutations per template; thorough: 8",
     "outside": "rewritings outside the listed families; renamings that break the naming conventions",
     "assumptions": ["as C01"],
     "stubs": [],
@@ -33,7 +33,7 @@ def variants(tier):
     nperm = 2 if tier == "quick" else 8
     from .c05 import BASES, orders
 
-    for spec in BASES[:8]:
+    for spec in BASES:
         for so, co, fo in orders(spec, "thorough")[1 :: max(1, len(orders(spec, "thorough")) // nperm)][:nperm]:
             out.append((f"permute:{spec[0]}|s={so}|c={co}|f={fo}", ("perm", spec, so, co, fo)))
     ren = {
